@@ -144,13 +144,34 @@ func (fdb *fsDb) Put(ctx context.Context, key []byte, val []byte) error {
 	}
 	logg.TraceCtxf(ctx, "fs put", "key", key, "lk", lk, "flk", flk, "val", val)
 	if flk.Translation != "" {
-		err = ioutil.WriteFile(flk.Translation, val, 0600)
+		err = fdb.writeFile(flk.Translation, val)
 		if err != nil {
 			return err
 		}
 		return nil
 	}
-	return ioutil.WriteFile(flk.Default, val, 0600)
+	return fdb.writeFile(flk.Default, val)
+}
+
+// write the complete value to a temporary file and move it into place, so that a reader
+// never finds a truncated or partially written record.
+func (fdb *fsDb) writeFile(fp string, val []byte) error {
+	f, err := os.CreateTemp(fdb.dir, ".tmp-*")
+	if err != nil {
+		return err
+	}
+	tmp := f.Name()
+	_, err = f.Write(val)
+	if cerr := f.Close(); err == nil {
+		err = cerr
+	}
+	if err == nil {
+		err = os.Rename(tmp, fp)
+	}
+	if err != nil {
+		os.Remove(tmp)
+	}
+	return err
 }
 
 // Close implements the Db interface.
